@@ -10,7 +10,9 @@ RULE = ("each generated workspace (colliding fixture names by construction) is i
         "the per-file analysis order, with analyze_file and with the scan's no-cleanup path; the full answer "
         "battery (go-to-definition at every column of usage-bearing lines, references per definition, available "
         "fixtures, resolve per name, cycles, scope mismatches, unused list, recorded definitions) is compared across "
-        "orders on the implementation and against the model. Non-trivial = at least two same-named definitions; "
+        "orders on the implementation and against the model; workspaces with an in-workspace editable plugin whose "
+        "modules are reached by several import routes are scanned (real scan_workspace) several times on fresh "
+        "indexes and every answer compared between the scans and with the model. Non-trivial = at least two same-named definitions; "
         "distinct by workspace signature")
 
 
@@ -83,6 +85,125 @@ def sched_part(r, tier):
     r.stats["scan_worker_schedules_explored"] = nruns
 
 
+FXT = "import pytest\n\n@pytest.fixture\ndef {0}():\n    return 1\n"
+
+
+def gen_rescan_workspace(rng):
+    """a workspace whose classification work happens in the SCAN itself: an in-workspace plugin installed editable
+    (pytest11 entry point), whose entry module reaches further modules over one to three hops (star import or
+    pytest_plugins), while conftest.py files elsewhere import some of those modules too - so that the scan meets one
+    module by several routes, in whatever order its work lists happen to iterate"""
+    files = {}
+    sp = "%s/lib/python3.12/site-packages" % rng.choice([".venv", "venv"])
+    src = rng.choice(["src", "plugins_src"])
+    mod = "myplug"
+    depth = rng.choice([1, 2, 2, 3])
+    chain = ["plugin"] + ["lvl%d" % k for k in range(1, depth + 1)]
+    files["%s/%s/__init__.py" % (src, mod)] = ""
+    for k, m in enumerate(chain):
+        head = ""
+        if k + 1 < len(chain):
+            head = rng.choice(["from .%s import *\n" % chain[k + 1], "from %s.%s import *\n" % (mod, chain[k + 1]),
+                               'pytest_plugins = ["%s.%s"]\n' % (mod, chain[k + 1])])
+        files["%s/%s/%s.py" % (src, mod, m)] = head + FXT.format("fx_" + m)
+    files[sp + "/%s-0.1.0.dist-info/entry_points.txt" % mod] = "[pytest11]\n%s = %s.plugin\n" % (mod, mod)
+    files[sp + "/%s-0.1.0.dist-info/direct_url.json" % mod] = '{"url": "file://@BASE@/ws/%s", "dir_info": {"editable": true}}' % src
+    files[sp + "/__editable__.%s-0.1.0.pth" % mod] = "@BASE@/ws/%s\n" % src
+    tests = []
+    dirs = ["tests/unit", "tests/integration", "tests/unit/deep", "tests"]
+    rng.shuffle(dirs)
+    nconf = rng.choice([1, 1, 2])
+    for k, d in enumerate(dirs[:3]):
+        if k < nconf:
+            tgt = rng.choice(chain[1:])
+            files[d + "/conftest.py"] = rng.choice(["from %s.%s import *\n" % (mod, tgt), 'pytest_plugins = ["%s.%s"]\n' % (mod, tgt)])
+        t = d + "/test_%d.py" % k
+        files[t] = "def test_%d(%s):\n    pass\n" % (k, ", ".join("fx_" + m for m in chain))
+        tests.append(t)
+    return files, tests, chain
+
+
+def rescan_corpus():
+    """(fixed 2bbe7de) the workspace on which two scans first disagreed: the plugin's modules are all indexed by the
+    workspace walk, the import scan visits them in hash order, and a module walked before its importer marked it
+    never passed plugin status on (fx_lvl3 was a plugin fixture in some scans only)"""
+    sp = "venv/lib/python3.12/site-packages"
+    files = {
+        "plugins_src/myplug/__init__.py": "",
+        "plugins_src/myplug/plugin.py": 'pytest_plugins = ["myplug.lvl1"]\n' + FXT.format("fx_plugin"),
+        "plugins_src/myplug/lvl1.py": "from .lvl2 import *\n" + FXT.format("fx_lvl1"),
+        "plugins_src/myplug/lvl2.py": 'pytest_plugins = ["myplug.lvl3"]\n' + FXT.format("fx_lvl2"),
+        "plugins_src/myplug/lvl3.py": FXT.format("fx_lvl3"),
+        "tests/conftest.py": 'pytest_plugins = ["myplug.lvl1"]\n',
+        "tests/unit/deep/conftest.py": "from myplug.lvl2 import *\n",
+        sp + "/__editable__.myplug-0.1.0.pth": "@BASE@/ws/plugins_src\n",
+        sp + "/myplug-0.1.0.dist-info/direct_url.json": '{"url": "file://@BASE@/ws/plugins_src", "dir_info": {"editable": true}}',
+        sp + "/myplug-0.1.0.dist-info/entry_points.txt": "[pytest11]\nmyplug = myplug.plugin\n",
+    }
+    chain = ["plugin", "lvl1", "lvl2", "lvl3"]
+    tests = ["tests/test_1.py", "tests/unit/deep/test_0.py", "tests/unit/test_2.py"]
+    for k, t in enumerate(tests):
+        files[t] = "def test_%d(%s):\n    pass\n" % (k, ", ".join("fx_" + m for m in chain))
+    return files, tests, chain
+
+
+def rescan_part(r, tier):
+    """`scanning the same workspace again … in a new process`: the real scan_workspace on the same files, several
+    times over (each on a fresh index; the scan's hash sets iterate differently every time): every answer must be
+    the same each time, and the model's"""
+    v = r.verdict
+    cases = core.Cases()
+    groups = []
+    nws = 5 if tier == "quick" else 40
+    reps = 6 if tier == "quick" else 10
+    for i in range(nws):
+        files, tests, chain = rescan_corpus() if i == 0 else gen_rescan_workspace(r.rng)
+        names = []
+        for j in range(reps):
+            name = "rs%dx%d" % (i, j)
+            cases.case(name, {"kind": "rescan"})
+            for k, (p, t) in enumerate(sorted(files.items())):
+                if p.endswith(".py"):
+                    cases.text("f%d" % k, t)
+                else:
+                    cases.text("f%d" % k, t, with_ast=False)
+                cases.raw("disk %s f%d" % (p, k))
+            cases.op("scan")
+            cases.q("dump")
+            for p in sorted(files):
+                if p.endswith(".py"):
+                    cases.q("defs", p)
+            for t in tests:
+                cases.q("avail", t)
+                for m in chain:
+                    cases.q("resolve", t, "fx_" + m)
+            cases.q("unused")
+            names.append(name)
+        groups.append((names, files))
+        if i < 1:
+            r.samples.append({"rescan_workspace": {k: v_ for k, v_ in files.items()}})
+    ia, ma, sp = r.run_cases(cases, tag="rescan")
+    r.evaluations += len(ia)
+    r.correspond(cases, ia, ma)
+    ncmp = 0
+    for (names, files) in groups:
+        ref = names[0]
+        nq = max(k[1] for k in cases.queries if k[0] == ref)
+        for idx in range(1, nq + 1):
+            q = cases.queries.get((ref, idx))
+            if q is None or q[0] != "q":
+                continue
+            ncmp += 1
+            answers = {nm: ia.get((nm, idx)) for nm in names}
+            if len(set(answers.values())) <= 1:
+                continue
+            other = [nm for nm in names if answers[nm] != answers[ref]][0]
+            msg = (f"{' '.join(q)} after scanning the same workspace: scan {ref} answers {answers[ref]} but scan {other} "
+                   f"answers {answers[other]}")
+            v.violation(f"{ref}-{idx}", msg, f"# {msg}\n# query #{idx}\n" + cases.replay_text(ref) + cases.replay_text(other))
+    r.stats["rescan_answers_compared"] = ncmp
+
+
 def run(tier, seed):
     r = Run(PROP, MODULE, THEOREMS, tier, seed)
     if not r.prepare():
@@ -144,6 +265,7 @@ def run(tier, seed):
                    f"{cases.meta[other]['order']} answers {answers[other]} (failed hypotheses: {sorted(flags) or 'none'})")
             v.violation(f"{a0}-{idx}", msg, f"# {msg}\n# query #{idx}\n" + cases.replay_text(a0) + cases.replay_text(other))
     r.stats["order_dependent_answers"] = ndiff
+    rescan_part(r, tier)
     sched_part(r, tier)
     return r.finish(RULE)
 
